@@ -170,6 +170,19 @@ for ci, (desc, code) in enumerate(codes):
         if g2.version != g.version: bad.append([desc, existing, 'version differs after reading back'])
         c2 = b''.join(g2.lua.to_lines())
         if norm(c2) != norm(code): bad.append([desc, existing, 'code differs after reading back: %r... vs %r...' % (c2[:40], code[:40])])
+# every cart version with code stored compressed and with code stored raw (the reader must go by the code area's header alone)
+for ver in (0, 1, 4, 5, 7, 8, 16, 41, 255):
+    for desc, code in (('compressible', b'print("hello world")\n' * 60), ('raw', b'x=1\n')):
+        n += 1
+        g = rand_game(code); g.version = ver
+        dest = os.path.join(work, 'ver%d.p8.png' % n)
+        try:
+            pfile.to_file(g, dest); g2 = pfile.from_file(dest)
+        except Exception as e:
+            bad.append(['version %d, %s code' % (ver, desc), False, 'raised %s: %s' % (type(e).__name__, e)]); continue
+        c2 = b''.join(g2.lua.to_lines())
+        if norm(c2) != norm(code): bad.append(['version %d, %s code' % (ver, desc), False, 'code differs after reading back: %r... vs %r...' % (c2[:40], code[:40])])
+        if g2.version != ver: bad.append(['version %d, %s code' % (ver, desc), False, 'version read back as %r' % (g2.version,)])
 # does not fit: must be refused, destination untouched
 for desc, code in (('incompressible 0x3d01', incompressible(0x3d01)), ('incompressible 0x4000', incompressible(0x4000)), ('incompressible 70000', incompressible(70000))):
     for existing in (False, True):
